@@ -1218,7 +1218,7 @@ def run(ctx):
         if why:
             ctx.violation(why, {'variant': c}, signature={'stage': 'variant', 'kind': c['kind']})
     # (c) streams
-    count = 240 if ctx.tier == 'quick' else 4000
+    count = 240 if ctx.tier == 'quick' else 3000
     step = 5 if ctx.tier == 'quick' else 50
     tasks = [(ctx.seed, lo, min(count, lo + step), True) for lo in range(0, count, step)]
     with multiprocessing.Pool(min(16, os.cpu_count() or 1)) as pool:
